@@ -115,6 +115,24 @@ func LinkKey(n int) enc.SharedKey {
 	return keys[n-1]
 }
 
+// LateWipeLinkIO builds the link-encrypting codec for key n from a caller-owned buffer and returns, with the
+// codec, the function by which the caller wipes that buffer LATER (after entries have been written with the
+// codec). The codec must keep working with the key it was given.
+func LateWipeLinkIO(n int) (iface.IO, func()) {
+	buf := make([]byte, 32)
+	sum := sha256.Sum256([]byte(fmt.Sprintf("verif-linkkey-%d", n)))
+	copy(buf, sum[:])
+	k, err := enc.NewSecretbox(buf)
+	if err != nil {
+		panic(err)
+	}
+	return InitIO().ApplyOptions(&cbor.Options{LinkKey: k}), func() {
+		for i := range buf {
+			buf[i] = 0
+		}
+	}
+}
+
 // Codec names: "cbor" (default), "link" / "link2" (link-encrypting with key 1 / 2), "pb" (legacy).
 func IO(codec string) iface.IO {
 	switch codec {
@@ -207,6 +225,9 @@ func NewWorld(seed int64, nIdents int, logID, order, codec string) *World {
 }
 
 func (w *World) IOv() iface.IO { return w.io }
+
+// SetIO replaces the codec of the world (before any log is created).
+func (w *World) SetIO(io iface.IO) { w.io = io }
 
 func (w *World) Identity(name string) *idp.Identity {
 	id, err := idp.CreateIdentity(w.Ctx, &idp.CreateIdentityOptions{Keystore: w.KS, ID: name, Type: "orbitdb"})
